@@ -134,6 +134,15 @@ def gen(rng, tier):
 fix_candidate = TG.fix_typed_candidate
 
 
+def check_facts(facts):
+    """the struct tags the harness writes (`config`, `validate`) are the ones the code reads by default (opts.go makeOptions,
+    regenerated on every run)"""
+    d = (facts.get("info") or {}).get("defaultTagNames", "")
+    if '("config", "validate")' not in d:
+        return "opts.go makeOptions no longer reads the struct tags config / validate by default: " + d
+    return None
+
+
 def nontrivial(case, impl):
     return bool(case.get("_nt"))
 
